@@ -22,21 +22,45 @@ DA = "api/src/dataset/adapter.rs"
 
 
 def _strip(text, rel):
-    # the unit tests are not part of the adapters
+    """drop the unit tests and every comment (line and block comments; string literals are respected)"""
     m = re.search(r"\n#\[cfg\(test\)\]\s*\nmod test\b", text)
     if m:
         text = text[:m.start()]
-    if "/*" in text:
-        raise ExtractError("%s: block comment: unsupported" % rel)  # noqa: F821
     out = []
-    for line in text.split("\n"):
-        i = line.find("//")
-        if i >= 0:
-            if '"' in line[:i]:
-                raise ExtractError("%s: '//' after a string literal: comment stripping unsafe" % rel)  # noqa: F821
-            line = line[:i]
-        out.append(line)
-    return "\n".join(out)
+    i, n = 0, len(text)
+    while i < n:
+        c = text[i]
+        if c == '"':
+            j = i + 1
+            while j < n and text[j] != '"':
+                if text[j] == "\\":
+                    j += 1
+                j += 1
+            out.append(text[i:j + 1])
+            i = j + 1
+        elif text.startswith("//", i):
+            j = text.find("\n", i)
+            i = n if j < 0 else j
+        elif text.startswith("/*", i):
+            depth, j = 1, i + 2
+            while j < n and depth:
+                if text.startswith("/*", j):
+                    depth, j = depth + 1, j + 2
+                elif text.startswith("*/", j):
+                    depth, j = depth - 1, j + 2
+                else:
+                    j += 1
+            if depth:
+                raise ExtractError("%s: unterminated block comment" % rel)  # noqa: F821
+            out.append(" ")
+            i = j
+        elif text.startswith("'\"'", i):
+            # a char literal holding a double quote would derail the string scanner: fail closed
+            raise ExtractError("%s: char literal '\"': comment stripping unsafe" % rel)  # noqa: F821
+        else:
+            out.append(c)
+            i += 1
+    return "".join(out)
 
 
 def _match_brace(text, i, rel):
@@ -61,7 +85,8 @@ def _match_brace(text, i, rel):
 
 
 def _squash(s):
-    return re.sub(r"\s+", "", s)
+    """no whitespace, no trailing comma before a closing bracket (rustfmt adds / drops them freely)"""
+    return re.sub(r",(?=[)\]}])", "", re.sub(r"\s+", "", s))
 
 
 def _impl(text, header_re, rel):
@@ -95,11 +120,13 @@ def _fns(body, rel):
 
 
 def _expect(fns, name, want, where):
+    """`want`: the transcribed body, or a list of equivalent spellings of it"""
     got = fns.get(name)
     if got is None:
         raise ExtractError("%s: fn %s not found" % (where, name))  # noqa: F821
-    if got != _squash(want):
-        raise ExtractError("%s::%s is no longer `%s` (found `%s`)" % (where, name, want, got[:200]))  # noqa: F821
+    wants = want if isinstance(want, list) else [want]
+    if got not in [_squash(w) for w in wants]:
+        raise ExtractError("%s::%s is no longer `%s` (found `%s`)" % (where, name, wants[0], got[:200]))  # noqa: F821
 
 
 def _only(fns, names, where):
@@ -131,7 +158,7 @@ def _gen(repo):
     info = {}
 
     # ---- UnionGraph
-    f = _fns(_impl(ga, r"Graph\s+for\s+UnionGraph<T>", GA), GA)
+    f = _fns(_impl(ga, r"\sGraph\s+for\s+UnionGraph<T>", GA), GA)
     # the enumerations are either all forwarded to the dataset (shipped text) or only subjects /
     # predicates / objects are (text of notes/fixes/C11-union-graph-atoms.diff: the other five fall back
     # on the `Graph` defaults over `triples()`)
@@ -151,7 +178,7 @@ def _gen(repo):
     _expect(f, "new", "UnionGraph(wrapped)", "UnionGraph")
 
     # ---- PartialUnionGraph
-    f = _fns(_impl(ga, r"Graph\s+for\s+PartialUnionGraph<D,\s*M>", GA), GA)
+    f = _fns(_impl(ga, r"\sGraph\s+for\s+PartialUnionGraph<D,\s*M>", GA), GA)
     _only(f, ["triples", "triples_matching"], "Graph for PartialUnionGraph")
     _expect(f, "triples", "self.d.quads_matching(Any, Any, Any, self.m)" + INTO_TRIPLE, "PartialUnionGraph")
     _expect(f, "triples_matching", "self.d.quads_matching(sm, pm, om, self.m)" + INTO_TRIPLE, "PartialUnionGraph")
@@ -167,7 +194,7 @@ def _gen(repo):
     _only(f, ["triples", "triples_matching"], "Graph for DatasetGraph")
     _expect(f, "triples", "self.d.quads_matching(Any, Any, Any, [self.g()])" + INTO_TRIPLE, "DatasetGraph")
     _expect(f, "triples_matching", "self.d.quads_matching(sm, pm, om, [self.g()])" + INTO_TRIPLE, "DatasetGraph")
-    f = _fns(_impl(ga, r"MutableGraph\s+for\s+DatasetGraph<D,\s*G>", GA), GA)
+    f = _fns(_impl(ga, r"\sMutableGraph\s+for\s+DatasetGraph<D,\s*G>", GA), GA)
     _only(f, ["insert", "remove"], "MutableGraph for DatasetGraph")
     pat = re.escape("let(g,d)=self.gd();d.") + r"(\w+)" + re.escape("(s,p,o,g)")
     info["datasetGraphInsertCalls"] = _call(f, "insert", pat, "MutableGraph for DatasetGraph")
@@ -180,13 +207,15 @@ def _gen(repo):
     _only(f, ["quads", "quads_matching", "contains", "graph_names"] + ENUMS, "Dataset for GraphAsDataset")
     _expect(f, "quads", "self.0.triples()" + INTO_QUAD, "GraphAsDataset")
     _expect(f, "quads_matching",
-            "if gm.matches(None as GraphName<&GTerm<T>>) { Box::new(self.0.triples_matching(sm, pm, om)" + INTO_QUAD
-            + ",) } else { Box::new(std::iter::empty()) }", "GraphAsDataset")
+            ["if gm.matches(%s) { Box::new(self.0.triples_matching(sm, pm, om)" % none + INTO_QUAD
+             + ") } else { Box::new(std::iter::empty()) }"
+             for none in ("None as GraphName<&GTerm<T>>", "None::<&GTerm<T>>", "None::<&GTerm<'_, T>>")],
+            "GraphAsDataset")
     _expect(f, "contains", "if g.is_none() { self.0.contains(s, p, o) } else { Ok(false) }", "GraphAsDataset")
     _expect(f, "graph_names", "std::iter::empty()", "GraphAsDataset")
     for e in ENUMS:
         _expect(f, e, "self.0.%s()" % e, "GraphAsDataset")
-    f = _fns(_impl(da, r"MutableDataset\s+for\s+GraphAsDataset<T>", DA), DA)
+    f = _fns(_impl(da, r"\sMutableDataset\s+for\s+GraphAsDataset<T>", DA), DA)
     _only(f, ["insert", "remove"], "MutableDataset for GraphAsDataset")
     ipat = (re.escape("ifg.is_none(){self.0.") + r"(\w+)" +
             re.escape("(s,p,o).map_err(GraphAsDatasetMutationError::Graph)}else{Err(GraphAsDatasetMutationError::OnlyDefaultGraph)}"))
@@ -220,7 +249,7 @@ def _gen(repo):
     for rel, trait, args in (("api/src/dataset/_foreign_impl.rs", "MutableDataset", "s, p, o, g"),
                              ("api/src/graph/_foreign_impl.rs", "MutableGraph", "s, p, o")):
         text = _strip(read(repo, rel), rel)  # noqa: F821
-        f = _fns(_impl(text, trait + r"\s+for\s+&mut\s+T", rel), rel)
+        f = _fns(_impl(text, r"\s" + trait + r"\s+for\s+&mut\s+T", rel), rel)
         _expect(f, "insert", "T::insert(*self, %s)" % args, trait + " for &mut T")
         _expect(f, "remove", "T::remove(*self, %s)" % args, trait + " for &mut T")
 
